@@ -143,7 +143,6 @@ fn main() {
         let futs: Vec<_> = (0..conc.min(worlds - wi)).map(|k| run_world((wi + k) as u64, rng.fork())).collect();
         for o in rt.block_on(futures::future::join_all(futs)) {
             match o {
-                if std::env::var("C20_DEBUG").is_ok() { eprintln!("world {wi}: n={n} setup {t_setup} ms, run until {t_run} ms, teardown until {} ms", tw0.elapsed().as_millis()); }
     Ok((term, desc, nontrivial, viol)) => {
                     w.push(id, term); sum.evaluations += 1; if nontrivial { sum.distinct_nontrivial += 1; }
                     for v in viol { sum.violation(id, v["what"].as_str().unwrap_or("liveness"), &[], v.clone()); }
